@@ -93,7 +93,7 @@ def run(ctx):
             set_tz(z)
             # zones change their rules: file times from other years are judged by the rules in force THEN (negative
             # DST in Europe/Dublin, Moscow's +04 years, Caracas' -04:30 years, Istanbul before 2016)
-            years = [2026] + ([2012, 2015] if z in IANA and z != "UTC" else []) + ([2009, 2011, 2014, 2016, 1999, 1985] if ctx.thorough and z in IANA and z != "UTC" else [])
+            years = [2026] + ([2012, 2015, 1969, 1968] if z in IANA and z != "UTC" else []) + ([2009, 2011, 2014, 2016, 1999, 1985] if ctx.thorough and z in IANA and z != "UTC" else [])
             work = []
             for y in years:
                 pts, base, trs, lo, hi = critical_instants(z, y)
